@@ -2,14 +2,36 @@
 // points are replaced by harness/mock_gomp.hpp.
 //   execomp d per H B mode stop policy T seed nf f_1.. N nums...
 // output: dump || trace (execution order) || R || C || T tasks: seq:priority:worker:deps(kind@bufferid,...) ... || O execution order
+// With -DRT_SPECX / -DRT_STARPU (and -Iharness/mockrt) the same commands drive TbfSmSpecxAlgorithm(Tsm) /
+// TbfSmStarpuAlgorithm(Tsm) on API-compatible mock runtimes (harness/mockrt) that share the scheduler of mock_sched.hpp.
+#if defined(RT_SPECX)
+#include "Legacy/SpRuntime.hpp"
+#elif defined(RT_STARPU)
+#include "starpu.h"
+#else
 #include "mock_gomp.hpp"
+#endif
 #include "tbfglobal.hpp"
 #include "spacial/tbfmortonspaceindex.hpp"
 #include "spacial/tbfspacialconfiguration.hpp"
 #include "core/tbftree.hpp"
+#include "core/tbftreetsm.hpp"
+#if defined(RT_SPECX)
+#include "algorithms/smspecx/tbfsmspecxalgorithm.hpp"
+#include "algorithms/smspecx/tbfsmspecxalgorithmtsm.hpp"
+#define ALGO_T TbfSmSpecxAlgorithm
+#define ALGOTSM_T TbfSmSpecxAlgorithmTsm
+#elif defined(RT_STARPU)
+#include "algorithms/smstarpu/tbfsmstarpualgorithm.hpp"
+#include "algorithms/smstarpu/tbfsmstarpualgorithmtsm.hpp"
+#define ALGO_T TbfSmStarpuAlgorithm
+#define ALGOTSM_T TbfSmStarpuAlgorithmTsm
+#else
 #include "algorithms/openmp/tbfopenmpalgorithm.hpp"
 #include "algorithms/openmp/tbfopenmpalgorithmtsm.hpp"
-#include "core/tbftreetsm.hpp"
+#define ALGO_T TbfOpenmpAlgorithm
+#define ALGOTSM_T TbfOpenmpAlgorithmTsm
+#endif
 #include "common.hpp"
 #include "trace_kernel.hpp"
 #include <algorithm>
@@ -22,7 +44,7 @@ std::string run_exec_omp(const Cmd& c){
     using Space = TbfMortonSpaceIndex<D, Conf, Per>;
     using Tree = TbfTree<double, double, D, unsigned long, 1, TagVal, TagVal, Space>;
     using Kernel = TraceKernel<double, Space>;
-    using Algo = TbfOpenmpAlgorithm<double, Kernel, Space>;
+    using Algo = ALGO_T<double, Kernel, Space>;
     const long H = c.L(3), B = c.L(4), mode = c.L(5), stop = c.L(6), policy = c.L(7), T = c.L(8), seed = c.L(9), nf = c.L(10);
     std::vector<int> flags; size_t a = 11;
     for(long k = 0 ; k < nf ; ++k) flags.push_back(int(c.L(a++)));
@@ -39,6 +61,7 @@ std::string run_exec_omp(const Cmd& c){
     for(long l = 0 ; l < tree.getHeight() ; ++l){
         long g = 0;
         for(auto& grp : tree.getCellGroupsAtLevel(l)){
+            bufname[grp.getDataPtr()] = "S" + std::to_string(l) + "." + std::to_string(g);      // symbolic block (indices), read-only
             bufname[grp.getMultipolePtr()] = "M" + std::to_string(l) + "." + std::to_string(g);
             bufname[grp.getLocalPtr()] = "L" + std::to_string(l) + "." + std::to_string(g);
             g += 1;
@@ -48,6 +71,7 @@ std::string run_exec_omp(const Cmd& c){
     TraceSink sink; trace_sink() = &sink;
     mock_rt().reset(MockRuntime::Policy(policy), int(T), (unsigned long)seed);
     mock_rt().on_task_start = [](long s){ trace_sink()->add("@task " + std::to_string(s)); };
+    mock_rt().on_spawn = [](long s){ trace_sink()->add("@spawn " + std::to_string(s)); };
     std::string out = dump(tree);
     std::string tasks;
     {
@@ -70,6 +94,13 @@ std::string run_exec_omp(const Cmd& c){
     }
     std::string order;
     for(long s : mock_rt().exec_order) order += " " + std::to_string(s);
+    // dependence graph as the runtime computed it: seq:parent:pred,pred,...
+    order += " || G";
+    for(auto& t : mock_rt().history){
+        order += " " + std::to_string(t.seq) + ":" + std::to_string(t.parent) + ":";
+        bool first = true;
+        for(long p : t.preds){ order += (first ? "" : ",") + std::to_string(p); first = false; }
+    }
     out += " || " + join_trace(sink) + " || " + values(tree) + " || T" + tasks + " || O" + order;
     trace_sink() = nullptr;
     return out;
@@ -83,7 +114,7 @@ std::string run_exec_omp_tsm(const Cmd& c){
     using Space = TbfMortonSpaceIndex<D, Conf, Per>;
     using Tree = TbfTreeTsm<double, double, D, unsigned long, 1, TagVal, TagVal, Space>;
     using Kernel = TraceKernel<double, Space>;
-    using Algo = TbfOpenmpAlgorithmTsm<double, Kernel, Space>;
+    using Algo = ALGOTSM_T<double, Kernel, Space>;
     const long H = c.L(3), B = c.L(4), mode = c.L(5), stop = c.L(6), policy = c.L(7), T = c.L(8), seed = c.L(9), nf = c.L(10);
     std::vector<int> flags; size_t a = 11;
     for(long k = 0 ; k < nf ; ++k) flags.push_back(int(c.L(a++)));
@@ -101,14 +132,15 @@ std::string run_exec_omp_tsm(const Cmd& c){
     tree.applyToAllCellsTarget([](long level, auto&& h, auto&&, auto&& l){ if(l){ l->get().tagLevel1 = level + 1; l->get().tagIndex = h.spaceIndex; } });
     std::map<const void*, std::string> bufname;
     for(long l = 0 ; l < H ; ++l){
-        long g = 0; for(auto& grp : tree.getCellGroupsAtLevelSource(l)){ bufname[grp.getMultipolePtr()] = "M" + std::to_string(l) + "." + std::to_string(g); g += 1; }
-        g = 0; for(auto& grp : tree.getCellGroupsAtLevelTarget(l)){ bufname[grp.getLocalPtr()] = "L" + std::to_string(l) + "." + std::to_string(g); g += 1; }
+        long g = 0; for(auto& grp : tree.getCellGroupsAtLevelSource(l)){ bufname[grp.getDataPtr()] = "SS" + std::to_string(l) + "." + std::to_string(g); bufname[grp.getMultipolePtr()] = "M" + std::to_string(l) + "." + std::to_string(g); g += 1; }
+        g = 0; for(auto& grp : tree.getCellGroupsAtLevelTarget(l)){ bufname[grp.getDataPtr()] = "ST" + std::to_string(l) + "." + std::to_string(g); bufname[grp.getLocalPtr()] = "L" + std::to_string(l) + "." + std::to_string(g); g += 1; }
     }
     { long g = 0; for(auto& grp : tree.getParticleGroupsSource()){ bufname[grp.getDataPtr()] = "DS" + std::to_string(g); g += 1; } }
     { long g = 0; for(auto& grp : tree.getParticleGroupsTarget()){ bufname[grp.getDataPtr()] = "DT" + std::to_string(g); bufname[grp.getRhsPtr()] = "R" + std::to_string(g); g += 1; } }
     TraceSink sink; trace_sink() = &sink;
     mock_rt().reset(MockRuntime::Policy(policy), int(T), (unsigned long)seed);
     mock_rt().on_task_start = [](long s){ trace_sink()->add("@task " + std::to_string(s)); };
+    mock_rt().on_spawn = [](long s){ trace_sink()->add("@spawn " + std::to_string(s)); };
     std::string out = dump_parts(H, [&](long l) -> const auto& { return tree.getCellGroupsAtLevelSource(l); }, tree.getParticleGroupsSource());
     out += " || " + dump_parts(H, [&](long l) -> const auto& { return tree.getCellGroupsAtLevelTarget(l); }, tree.getParticleGroupsTarget());
     {
@@ -127,6 +159,13 @@ std::string run_exec_omp_tsm(const Cmd& c){
     }
     std::string order;
     for(long s : mock_rt().exec_order) order += " " + std::to_string(s);
+    // dependence graph as the runtime computed it: seq:parent:pred,pred,...
+    order += " || G";
+    for(auto& t : mock_rt().history){
+        order += " " + std::to_string(t.seq) + ":" + std::to_string(t.parent) + ":";
+        bool first = true;
+        for(long p : t.preds){ order += (first ? "" : ",") + std::to_string(p); first = false; }
+    }
     out += " || " + join_trace(sink);
     std::vector<std::pair<long, unsigned long>> r;
     tree.applyToAllLeavesTarget([&](auto&& h, const long* idx, auto&&, auto&& rhs){ for(long p = 0 ; p < h.nbParticles ; ++p) r.push_back({idx[p], rhs[0][p]}); });
